@@ -1,6 +1,6 @@
 CONSTANTS
   MaxLen = 3
-  Ops = {"r_inc", "r_push", "r_probe", "f_throw", "f_each", "f_gen", "f_str", "f_seq", "f_type", "f_arity", "f_import", "f_op", "f_nested_try", "f_call", "f_compile", "f_indent", "c_bump", "c_boom", "c_deep", "c_few", "c_many", "c_native", "c_notfn", "c_missing", "c_gen", "d_lst", "d_x"}
+  Ops = {"r_inc", "r_push", "r_probe", "f_throw", "f_each", "f_gen", "f_str", "f_seq", "f_type", "f_arity", "f_import", "f_op", "f_nested_try", "f_call", "f_compile", "f_indent", "c_bump", "c_boom", "c_deep", "c_few", "c_many", "c_native", "c_notfn", "c_missing", "c_gen", "d_lst", "d_x", "d_notfn", "d_arity", "d_throw"}
 INIT Init
 NEXT Next
 INVARIANTS TypeOK Emit
